@@ -160,16 +160,22 @@ package generic
 //@     decreases len(sc(scanner).content) - sc(scanner).position
 //
 // ---- C / C++ comment states (C04, C12) ---------------------------------------------------------------
+// where a block comment whose body starts at i ends: just after the first '/' that directly follows a '*' read in the
+// body (prev: the character before i was such a '*'), or at the end of input
+//@ rec cEnd(s seq[rune], i int, prev bool) int decreases len(s) - i =
+//@     (i < 0 || i >= len(s)) ? len(s) : ((s[i] == 47 && prev) ? i + 1 : cEnd(s, i + 1, s[i] == 42))
 //@ func (c *CppCommentState) GetMultiLineComment
 //@   requires isScanner(scanner) && (forall i int :: 0 <= i && i < len(sc(scanner).content) ==> scalar(sc(scanner).content[i]))
 //@   ensures[C04] isScanner(scanner) && sc(scanner).content == old(sc(scanner).content)
 //@   ensures[C04] spans(result, scanner, old(cur(scanner)), cur(scanner))
+//@   ensures[C13] cur(scanner) == cEnd(seq(sc(scanner).content), old(cur(scanner)), false)
 //@   assigns sc(scanner).position, sc(scanner).line, sc(scanner).column
 //@   nopanic
 //@   loop 0
 //@     invariant isScanner(scanner) && sc(scanner).content == old(sc(scanner).content)
 //@     invariant old(sc(scanner).position) <= sc(scanner).position && sc(scanner).position <= len(sc(scanner).content)
 //@     invariant old(sc(scanner).position) < sc(scanner).position || old(sc(scanner).position) == len(sc(scanner).content)
+//@     invariant cEnd(seq(sc(scanner).content), old(cur(scanner)), false) == cEnd(seq(sc(scanner).content), sc(scanner).position, lastSymbol == 42)
 //@     invariant nextSymbol == chr(seq(sc(scanner).content), sc(scanner).position)
 //@     invariant spans(builder(result), scanner, old(cur(scanner)), min(sc(scanner).position, len(sc(scanner).content)))
 //@     decreases len(sc(scanner).content) - sc(scanner).position
